@@ -31,7 +31,7 @@ def run_check(p):
 
 
 def main():
-    seeds = sorted(d for d in os.listdir(V + "/seeded") if os.path.isdir(V + "/seeded/" + d))
+    seeds = sorted(d for d in os.listdir(V + "/seeded") if os.path.exists(V + "/seeded/" + d + "/meta.json"))
     if len(sys.argv) > 1:
         seeds = [s for s in seeds if s in sys.argv[1:]]
     if sh("git -C /repo diff --quiet").returncode != 0:
@@ -48,7 +48,7 @@ def main():
                 with cf.ThreadPoolExecutor(max_workers=5) as ex:
                     res = list(ex.map(run_check, PROPS))
             finally:
-                sh("git -C /repo checkout -- .")
+                sh("git -C /repo checkout -- . && git -C /repo clean -fdq -- .")
             meta_p = "%s/seeded/%s/meta.json" % (V, s)
             meta = json.load(open(meta_p))
             meta["detected_by"] = {p: {"verdict": k, "what": d} for p, k, d, _ in res if k != "ok"}
@@ -67,7 +67,7 @@ def main():
         shutil.copytree(evbak, V + "/evidence", dirs_exist_ok=True) if os.path.exists(evbak) else None
     # the table is rebuilt from every seed's meta.json, so partial runs keep the other rows
     rows = []
-    for sd in sorted(d for d in os.listdir(V + "/seeded") if os.path.isdir(V + "/seeded/" + d)):
+    for sd in sorted(d for d in os.listdir(V + "/seeded") if os.path.exists(V + "/seeded/" + d + "/meta.json")):
         meta = json.load(open("%s/seeded/%s/meta.json" % (V, sd)))
         if "detected_by" not in meta or not meta.get("checks_run"):
             rows.append((sd, meta["breaks_property"], "(matrix not run yet)", ""))
